@@ -1157,16 +1157,11 @@ static void app_set_servers_now(int arg, int quiescent)
           ares_free_string(now_csv);
         }
         if (x_rc == ARES_SUCCESS) {
-          /* does the SET of servers differ? (re-installing the same set is not a change) */
-          int differs = (n != app_cfg.nsrv_cfg), x, y;
+          /* does the (ordered) server list differ?  Re-installing the same list is not a change; the same servers in
+           * another order are another list (the order is the failover order) */
+          int differs = (n != app_cfg.nsrv_cfg), x;
           for (x = 0; x < n && !differs; x++) {
-            int found = 0;
-            for (y = 0; y < app_cfg.nsrv_cfg; y++) {
-              if (app_cfg.srv_cfg[y] == idx[x]) {
-                found = 1;
-              }
-            }
-            if (!found) {
+            if (app_cfg.srv_cfg[x] != idx[x]) {
               differs = 1;
             }
           }
@@ -1219,9 +1214,21 @@ static void app_do_action(app_act_t *a)
       break;
     case AA_REINIT:
       sim_note("api_reinit");
+      if (a->arg == 2) {
+        /* the configuration file cannot be read this time (a symbolic link to itself: ELOOP) */
+        unlink(app_resolv);
+        if (symlink("resolv.conf", app_resolv) != 0) { /* relative to its own directory: itself */
+          a->arg = 0;
+        }
+        sim_note("api_reinit_unreadable_config");
+      }
       if (ares_reinit(app_channel) == ARES_SUCCESS) {
         app_wait_reinit();
         ck_epoch++;
+      }
+      if (a->arg == 2) {
+        unlink(app_resolv);
+        app_write_file(app_resolv, app_cfg.resolv_content[0] ? app_cfg.resolv_content : "# simnet\n");
       }
       mon_quiescent("reinit");
       break;
